@@ -502,8 +502,10 @@ MODELLED = ["MACD", "BollingerBands", "Aroon", "RelativeStrengthIndex", "Stochas
             "AwesomeOscillator", "ChaikinOscillator", "CommodityChannelIndex", "WoodiesCCI", "CoppockCurve",
             "DetrendedPriceOscillator", "EaseOfMovement", "EldersForceIndex", "HullMovingAverage", "Kaufman", "MomentumIndex",
             "Trix", "KlingerVolumeOscillator", "KnowSureThing", "RelativeVigorIndex", "PivotReversalStrategy",
-            "ChandeKrollStop", "AverageDirectionalIndex"]
-UNMODELLED = ["FisherTransform", "TrendStrengthIndex"]
+            "ChandeKrollStop", "AverageDirectionalIndex",
+            # irrational values: compared on the square / against a rational approximation of atanh
+            "TrendStrengthIndex", "FisherTransform"]
+UNMODELLED = []
 
 IND_CLASSES = {
     "C05": ("ind-init", "ind-value", "ind-panic", "ind-shape"),
@@ -512,9 +514,10 @@ IND_CLASSES = {
 }
 
 IND_TRUST = [
-    "hand-written indicator models (lean/YataModel/Indicators.lean, Indicators2.lean: 34 of the 36 indicators: " + ", ".join(MODELLED) +
-    "); FisherTransform (atanh) and TrendStrengthIndex (square root of a running variance) have no model and are covered by "
-    "C07-C11/C13 only",
+    "hand-written indicator models (lean/YataModel/Indicators.lean, Indicators2.lean, Indicators3.lean: all 36 indicators: " + ", ".join(MODELLED) +
+    "); TrendStrengthIndex's p/sqrt(q) is compared on the square, FisherTransform's atanh against the rational approximation "
+    "atanhQ of Indicators3.lean (about 2^-90 accurate by construction, accuracy not proved: part of the trusted base of that "
+    "one comparison)",
     "tie: every `ind` transcript (every indicator x default + random valid configurations through the string setters, all 15 MA kinds, "
     "all Source kinds x candle classes walk/flat/gaps/zero-volume/volatile-flat-volatile) is replayed through the executable model "
     "by the compiled driver; init result kinds must agree, then every step is compared",
